@@ -22,9 +22,13 @@ def share_pool(rng, n_roots):
     flat = []          # the same, expanded to plain tuples (for the model)
     for k in range(n_roots + 2):
         def sub(budget):
-            if pool and rng.random() < 0.45:
+            r0 = rng.random()
+            if pool and r0 < 0.40:
                 j = rng.randrange(len(pool))
                 return ('REF', j)
+            if pool and r0 < 0.52:
+                j = rng.randrange(len(pool))
+                return flat[j]               # an equal but DISTINCT copy of an earlier pool member
             if budget <= 1:
                 return gen.rleaf(rng, [2, 3], 0.3)
             e = gen.rexpr(rng, budget, [2, 3])
@@ -35,6 +39,9 @@ def share_pool(rng, n_roots):
             h = rng.choice(['Add', 'Mul', 'Minus', 'Divide', 'Power', 'Neg', 'Recip', 'Sin', 'NthPow', 'NthRoot', 'Exp', 'Log'])
             if h in sx.NARY:
                 e = (h, [sub(rng.randint(1, 5)) for _ in range(rng.randint(2, 4))])
+            elif h in sx.BINARY and rng.random() < 0.25:
+                t = gen.rexpr(rng, rng.randint(2, 5), [2, 3], p_const=0.4)
+                e = (h, t, t)                # rebuilt twice: equal structure, two objects
             elif h in sx.BINARY:
                 e = (h, sub(rng.randint(1, 5)), sub(rng.randint(1, 5)))
             elif h in sx.UNARY:
@@ -182,6 +189,9 @@ def history_check(ctx, prop):
         h, ml = make_history(rng, rng.randint(4, maxlen))
         hs.append(h)
         mls.append(ml)
+    for h in dag_rule_histories(rng, sizes(tier, 120, 2500)):
+        hs.append(h)
+        mls.append(model_lines_for(h))
     res = run_histories(hs)
     # model answers: pure functions of (expression, point)
     flat_lines = []
@@ -231,6 +241,9 @@ def history_check(ctx, prop):
         if 'error' in r:
             continue
         i = r['outs'][oi]
+        if i == 'NOSLOT':
+            rep.stats['corr_skip'] += 1      # the derivative object could not be built (rejected, or overflow while folding)
+            continue
         st = core.classify(i, m)
         rep.stats['corr_' + st] += 1
         if st in ('disagree', 'error'):
@@ -239,6 +252,139 @@ def history_check(ctx, prop):
                                       'failing_input': False, 'history': trim_history(hs[hi], oi)})
     rep.stats.update({'op_' + k: v for k, v in ops_hist.items()})
     return rep
+
+
+def dag_rule_histories(rng, n):
+    """pools in which the SAME composite object sits inside a rule's redex and elsewhere in the root"""
+    x, y = '(V 2)', '(V 3)'
+    comps = ['(Add %s %s)' % (x, y), '(Mul %s %s)' % (x, y), '(Neg %s)' % x, '(Recip %s)' % y, '(NthPow %s 2)' % x,
+             '(NthRoot %s 3)' % y, '(Exp %s f4005bf0a8b145769)' % x, '(Log %s f4005bf0a8b145769)' % y,
+             '(Minus %s %s)' % (x, y), '(Divide %s %s)' % (x, y), '(Add %s (C i1) %s)' % (x, y), '(Mul (C i2) %s)' % x,
+             '(Sin %s)' % x, '(Power %s %s)' % (x, y), '(Add (Neg %s) %s)' % (x, y), '(Mul (Recip %s) %s)' % (x, y)]
+    wraps = ['(Neg (REF 0))', '(Recip (REF 0))', '(NthPow (REF 0) 2)', '(NthPow (REF 0) 3)', '(NthRoot (REF 0) 3)',
+             '(Exp (REF 0) f4005bf0a8b145769)', '(Log (REF 0) f4005bf0a8b145769)', '(Sin (REF 0))', '(Cos (REF 0))',
+             '(Minus (C i1) (REF 0))', '(Minus (REF 0) (V 3))', '(Divide (C i1) (REF 0))', '(Divide (REF 0) (V 2))',
+             '(Power (REF 0) (C i2))', '(Power (C i2) (REF 0))', '(Power (REF 0) (Neg (V 3)))', '(Neg (Neg (REF 0)))',
+             '(Add (REF 0) (C i0))', '(Mul (REF 0) (C i1))', '(Mul (Neg (REF 0)) (V 2))', '(Add (REF 0) (Neg (REF 0)))']
+    roots = ['(Mul (REF 0) (REF 1) (REF 0))', '(Add (REF 1) (REF 0))', '(Minus (REF 0) (REF 1))', '(Divide (REF 1) (REF 0))',
+             '(Add (REF 0) (REF 1) (REF 0))', '(Mul (REF 1) (REF 1))', '(Sin (Add (REF 1) (REF 0)))']
+    out = []
+    for _ in range(n):
+        c, w, r = rng.choice(comps), rng.choice(wraps), rng.choice(roots)
+        pts = ['[2=%s 3=%s]' % (sx.num_sx(rng.choice([0.5, 1.5, 2, 3])), sx.num_sx(rng.choice([0.5, 2, 1.25, 3])))
+               for _ in range(2)]
+        seqs = [[['norm', 2], ['at', 2, 0], ['at', 0, 0], ['norm', 1], ['at', 1, 1], ['norm', 2], ['at', 2, 1]],
+                [['mkpartial', 0, 2, 2, 0], ['pexpr', 0], ['at', 2, 0], ['at', 0, 1], ['mkpartial', 1, 1, 3, 1], ['pat', 1, 0],
+                 ['norm', 0], ['at', 2, 1]],
+                [['at', 2, 0], ['mkdiff', 0, 2, 1], ['dfcompexpr', 0, 2], ['norm', 2], ['at', 1, 0], ['at', 2, 1]]]
+        out.append({'pool': [c, w, r], 'points': pts, 'ops': rng.choice(seqs)})
+    return out
+
+
+def model_lines_for(h):
+    """the pure-model line of every operation of a history (None for constructions)"""
+    flat = []
+    for s_ in h['pool']:
+        flat.append(_expand_refs(s_, flat))
+    pts = h['points']
+    slots = {}
+    out = []
+    for op in h['ops']:
+        k = op[0]
+        if k == 'at':
+            out.append('EVAL %s %s' % (pts[op[2]], flat[op[1]]))
+        elif k == 'norm':
+            out.append('NORM %s' % flat[op[1]])
+        elif k == 'located':
+            out.append('REV %s %s' % (pts[op[2]], flat[op[1]]))
+        elif k in ('mkpartial', 'mkpartialobj'):
+            slots[op[1]] = {'kind': 'partial', 'e': op[2], 'v': op[3], 'symbolic': bool(op[4]), 'early': bool(op[4])}
+            out.append(None)
+        elif k == 'mkdiff':
+            slots[op[1]] = {'kind': 'diff', 'e': op[2], 'early': bool(op[3])}
+            out.append(None)
+        elif k == 'pat':
+            sl = slots[op[1]]
+            out.append(('PEARLY' if sl['symbolic'] else 'FWD') + ' %d %s %s' % (sl['v'], pts[op[2]], flat[sl['e']]))
+        elif k == 'pexpr':
+            sl = slots[op[1]]
+            sl['symbolic'] = True
+            out.append('PEXPR %d %s' % (sl['v'], flat[sl['e']]))
+        elif k == 'dfcompexpr':
+            sl = slots[op[1]]
+            out.append(('DEXPR' if sl['early'] else 'PEXPR') + ' %d %s' % (op[2], flat[sl['e']]))
+        else:
+            out.append(None)
+    return out
+
+
+def _expand_refs(s_, flat):
+    import re
+    return re.sub(r'\(REF (\d+)\)', lambda m: flat[int(m.group(1))], s_)
+
+
+def history_correspondence(ctx, rep, n, keep, maxlen=10, what='history', extra=None):
+    """histories restricted to the operation kinds in [keep] (plus the constructions they need); every
+    operation's outcome against the pure model; a wrong kind or value is a concrete failing history"""
+    rng = ctx.rng
+    hs, mls = [], []
+    tries = 0
+    while len(hs) < n and tries < 20 * n:
+        tries += 1
+        h, ml = make_history(rng, rng.randint(4, maxlen))
+        ops, m2 = [], []
+        for op, l in zip(h['ops'], ml):
+            if op[0] in keep or op[0].startswith('mk') or op[0] in ('pexpr', 'dexpr'):   # as_expression switches the object's path
+                ops.append(op)
+                m2.append(l)
+        if not any(l is not None for l in m2):
+            continue
+        h['ops'] = ops
+        hs.append(h)
+        mls.append(m2)
+    for h in (extra or []):
+        hs.append(h)
+        mls.append(model_lines_for(h))
+    res = run_histories(hs, fresh_oracle=False)
+    flat_lines = [l for ml in mls for l in ml if l is not None]
+    model = core.run_model(flat_lines)
+    k = 0
+    for h, r, ml in zip(hs, res, mls):
+        rep.cases += 1
+        rep.distinct.add(json.dumps(h, sort_keys=True))
+        for oi, l in enumerate(ml):
+            if l is None:
+                continue
+            m = model[k]
+            k += 1
+            if 'error' in r:
+                continue
+            i = r['outs'][oi]
+            if i == 'NOSLOT':
+                continue
+            st = core.classify(i, m)
+            rep.stats['corr_' + st] += 1
+            rep.stats[what + '_operations'] += 1
+            if st in ('disagree', 'error'):
+                oi_, om_ = core.parse_outcome(i), core.parse_outcome(m)
+                wrong = oi_[0] != om_[0]
+                if oi_[0] == om_[0] == 'VAL':
+                    wrong = not core.close(oi_[1], om_[1], rel=1e-9, abs_=1e-12)
+                elif oi_[0] == om_[0] == 'VALS':
+                    wrong = any(not core.close(oi_[1].get(q, 0), om_[1].get(q, 0), rel=1e-9, abs_=1e-12)
+                                for q in set(oi_[1]) | set(om_[1]))
+                elif oi_[0] == om_[0] == 'OTHER':
+                    wrong = False
+                if wrong:
+                    rep.oracle_failures.append({
+                        'what': 'operation %d %s of a sequence over expressions sharing objects: implementation %s, model %s'
+                                % (oi, h['ops'][oi], i[:120], m[:120]),
+                        'lines': [(l, i, m)], 'kf': None, 'history': trim_history(h, oi)})
+                else:
+                    rep.disagreements.append({'line': l, 'impl': i, 'model': m, 'note': what, 'failing_input': False,
+                                              'history': trim_history(h, oi)})
+        if 'error' in r:
+            rep.oracle_failures.append({'what': 'history runner failed: ' + r['error'], 'lines': [], 'kf': None, 'history': h})
 
 
 def trim_history(h, upto):
@@ -260,6 +406,7 @@ def check_C09(ctx):
                 'reuse earlier OBJECTS, at 2-4 points incl. points lacking a coordinate; every operation is repeated on '
                 'freshly built copies and compared bit for bit, and compared with the pure model; distinct = distinct history')
     budget_probe(ctx, rep)
+    process_state_probe(ctx, rep)
     return rep
 
 
@@ -271,6 +418,44 @@ def budget_probe(ctx, rep):
     w = budget_witness(Ls)
     if w:
         rep.known['KF-BUDGET'].append({'what': w, 'lines': [(w, '', '')], 'kf': 'KF-BUDGET'})
+
+
+def process_state_probe(ctx, rep):
+    """process-wide state keyed by equality (e.g. a memo on math functions): numerically equal but
+    differently spelled operands (10 vs 10.0, 0.0 vs -0.0) evaluated in ONE interpreter process, in
+    two different orders; every answer must be what the pure model answers"""
+    lines = []
+    spell = lambda v: [int(v), float(v)]          # noqa: E731
+    for a, n in [(3, 34), (10, 23), (17, 13), (7, 20), (5, 25), (2, 60), (6, 21), (11, 16)]:
+        for x in spell(a):
+            lines.append('EVAL [2=%s] (NthPow (V 2) %d)' % (sx.num_sx(x), n))
+            for m in spell(n):
+                lines.append('EVAL [2=%s 3=%s] (Power (V 2) (V 3))' % (sx.num_sx(x), sx.num_sx(m)))
+                lines.append('EVAL [3=%s] (Exp (V 3) %s)' % (sx.num_sx(m), sx.num_sx(x)))
+                lines.append('FWD 2 [2=%s 3=%s] (Power (V 2) (V 3))' % (sx.num_sx(x), sx.num_sx(m)))
+    for z in (0.0, -0.0, 0):
+        for n in (1, 3, 5):
+            lines.append('EVAL [2=%s] (NthPow (V 2) %d)' % (sx.num_sx(z), n))
+            lines.append('EVAL [2=%s] (Mul (V 2) (C i3))' % sx.num_sx(z))
+            lines.append('EVAL [2=%s] (Neg (V 2))' % sx.num_sx(z))
+        lines.append('EVAL [2=%s] (Exp (V 2) i2)' % sx.num_sx(z))
+        lines.append('EVAL [2=%s] (Sin (V 2))' % sx.num_sx(z))
+    for v in (2, 2.0, 4, 4.0, 8, 8.0, 27, 27.0):
+        lines.append('EVAL [2=%s] (NthRoot (V 2) 3)' % sx.num_sx(v))
+        lines.append('EVAL [2=%s] (NthRoot (V 2) 2)' % sx.num_sx(v))
+        lines.append('EVAL [2=%s] (Log (V 2) i2)' % sx.num_sx(v))
+        lines.append('EVAL [2=%s] (Log (V 2) f4000000000000000)' % sx.num_sx(v))
+    model = core.run_model(lines, jobs=1)
+    a = core.run_impl(lines, jobs=1)
+    rev = list(reversed(lines))
+    b = list(reversed(core.run_impl(rev, jobs=1)))
+    for l, m, x, y in zip(lines, model, a, b):
+        rep.stats['process_state_probe_lines'] += 1
+        if x != y:
+            rep.oracle_failures.append({'what': 'the answer depends on what was evaluated earlier in the same process: %s (this order) vs %s '
+                                                '(reverse order)' % (x, y), 'lines': [(l, x, m)], 'kf': None})
+        elif core.classify(x, m) == 'disagree':
+            rep.disagreements.append({'line': l, 'impl': x, 'model': m, 'note': 'process state probe', 'failing_input': False})
 
 
 def check_C10(ctx):
@@ -673,6 +858,7 @@ def check_C16(ctx):
     for a in ('str', 'badstr', 'none', 'expr', 'i3', sx.num_sx(1.5)):
         recs.append((('MKVAR', a), b.add('MKVAR %s' % a)))
     ops = b.add('CTOROPS')
+    names = b.add('NAMES')
     b.run()
     for key, i in recs:
         rep.cases += 1
@@ -688,6 +874,8 @@ def check_C16(ctx):
         _ = st
     if b.impl[ops] != 'ok':
         rep.oracle_fail('operand validation: %s' % b.impl[ops], b, [ops])
+    if b.impl[names] != 'ok':
+        rep.oracle_fail('variable names: %s' % b.impl[names], b, [names])
     return rep
 
 
@@ -721,6 +909,16 @@ def check_C18(ctx):
                       'PEARLY %d %s %s' % (v, ps, es), 'DEARLYALL %s %s' % (ps, es), 'DEARLYAT %d %s %s' % (v, ps, es)]
         lines += ['SYNREV %s' % es, 'PEXPR %d %s' % (v, es), 'DEXPR %d %s' % (v, es), 'NORM %s' % es, 'STEP %s' % es,
                   'VARS %s' % es, 'SHOW %s' % es]
+        # failing calls: a coordinate missing and/or a point outside the domain; WHICH error surfaces must not
+        # depend on the order in which the variable-name set is visited
+        q = [(k, rng.choice([-1, 0, -0.5, 2])) for k in ids]
+        rng.shuffle(q)
+        if len(q) > 1 and rng.random() < 0.7:
+            q.pop()
+        qs = sx.point_sx(q)
+        lines += ['EVAL %s %s' % (qs, es), 'REV %s %s' % (qs, es), 'DIFFAT %s %s' % (qs, es), 'DEARLYALL %s %s' % (qs, es),
+                  'DEARLYAT %d %s %s' % (v, qs, es), 'PEARLY %d %s %s' % (v, qs, es), 'FWD %d %s %s' % (v, qs, es)]
+        lines.append('LOCHASH %s %s %s' % (sx.point_sx(perms[0]), sx.point_sx(perms[1]), es))
         if len(ids) == 1:
             lines += ['ATNUM %s %s' % (sx.num_sx(1.5), es), 'DERIVNUM %s %s' % (sx.num_sx(1.5), es)]
     model = core.run_model(lines)
@@ -747,6 +945,11 @@ def check_C18(ctx):
             rep.oracle_failures.append({'what': 'outcome depends on the hash seed / process: %s' % outs,
                                         'lines': [(l, base[i], model[i])], 'kf': None,
                                         'extra': {'hashseeds': [str(s) for s in seeds]}})
+        if l.startswith('LOCHASH'):
+            if base[i] != 'ok':
+                rep.oracle_failures.append({'what': 'set/dict membership depends on how the point was written: %s' % base[i],
+                                            'lines': [(l, base[i], model[i])], 'kf': None})
+            continue
         st = core.classify(base[i], model[i])
         rep.stats['corr_' + st] += 1
         if st in ('disagree', 'error'):
@@ -756,7 +959,8 @@ def check_C18(ctx):
     for i, l in enumerate(lines):
         t = l.split(' ')
         if t[0] in ('EVAL', 'FWD', 'REV', 'PEARLY', 'DEARLYALL', 'DEARLYAT'):
-            key = (t[0], l[l.index(']') + 1:], t[1] if t[0] in ('FWD', 'PEARLY', 'DEARLYAT') else '')
+            coords = tuple(sorted(l[l.index('[') + 1:l.index(']')].split()))
+            key = (t[0], coords, l[l.index(']') + 1:], t[1] if t[0] in ('FWD', 'PEARLY', 'DEARLYAT') else '')
             byexpr[key].append(i)
     for key, idxs in byexpr.items():
         outs = set(base[i] for i in idxs)
